@@ -16,6 +16,8 @@ iteration order* of the set.  `Props/C08.lean` proves `l₁.Perm l₂ → emit l
   gdefFeatureWriter.py   _getLigatureCarets (57-81)  _sortedGlyphClass (83-84)
   propagateAnchors.py    _propagate_glyph_anchors: anchor_names / to_add (106-151)
   _compilers/baseCompiler.py  the compiler object as a state machine (cached skipExportGlyphs / featureCompilerClass)
+  infoCompiler.py        InfoCompiler.__init__ (29-44): the temporary UFO's Info = the default master's Info + the
+                         designspace <variable-font> overrides (lib["public.fontInfo"]), with Python object identity
 -/
 namespace Ufo2ft.C08
 
@@ -356,6 +358,50 @@ def copyGlyph (g : GlyphRec) : GlyphRec :=
 /-- everything the outline / feature compilers read from a glyph -/
 def GlyphRec.observable (g : GlyphRec) : String × Q × Q × List Nat × List AnchorRec × String × String :=
   (g.name, g.width, g.height, g.unicodes, g.anchors, g.lib, g.points)
+
+/-! ### infoCompiler.py, InfoCompiler.__init__ (29-44)
+
+`postProcessor.apply_fontinfo` (called for a variable font whose designspace `<variable-font>` element has
+`lib["public.fontInfo"]`) builds `InfoCompiler(otf, ufo, info)` with `ufo` = the DEFAULT MASTER the caller passed in
+(`vfNameToBaseUfo`, baseCompiler.py 314-317).  The constructor makes a temporary UFO whose Info is the master's Info with
+the overrides written over it.  Whether the master's own Info object is written to is a question of Python object
+identity, so Info objects live in a heap and fonts hold addresses. -/
+
+/-- a fontinfo object: attribute ↦ value (canonical text); an attribute that is `None` is absent -/
+abbrev InfoD := List (String × String)
+
+structure Heap where
+  objs : List InfoD
+
+def Heap.get (h : Heap) (r : Nat) : InfoD := h.objs.getD r []
+
+/-- a new object: `copy.copy(x)`, `type(ufo)()` -/
+def Heap.alloc (h : Heap) (d : InfoD) : Heap × Nat := (⟨h.objs ++ [d]⟩, h.objs.length)
+
+/-- `setattr(obj, k, v)` on the object at address `r` -/
+def Heap.setattr (h : Heap) (r : Nat) (k v : String) : Heap := ⟨h.objs.set r (dictUpdate (h.get r) [(k, v)])⟩
+
+inductive UfoLib | ufoLib2 | defcon
+  deriving DecidableEq, Repr
+
+/-- `InfoCompiler.__init__(otf, ufo, info)`, lines 33-44; `src` = address of `ufo.info`, `ov` = `info.items()`.
+Returns the heap afterwards and the address of `temp_ufo.info`.
+* defcon:  `data = ufo.info.getDataForSerialization(); data.update(info); temp_ufo.info.setDataFromSerialization(data)`
+* ufoLib2: `temp_ufo.info = copy.copy(ufo.info); for k, v in info.items(): setattr(temp_ufo.info, k, v)` -/
+def infoInit : UfoLib → Heap → Nat → InfoD → Heap × Nat
+  | .defcon, h, src, ov => h.alloc (dictUpdate (h.get src) ov)
+  | .ufoLib2, h, src, ov =>
+    let r := h.alloc (h.get src)
+    (ov.foldl (fun h kv => h.setattr r.2 kv.1 kv.2) r.1, r.2)
+
+/-- the ufoLib2 branch WITHOUT the copy (`temp_ufo.info = ufo.info`: the setter keeps an Info instance as it is, two names
+for one object).  Not what the code does; `Props`: this is what the copy is needed for. -/
+def infoInitAliased (h : Heap) (src : Nat) (ov : InfoD) : Heap × Nat :=
+  (ov.foldl (fun h kv => h.setattr src kv.1 kv.2) h, src)
+
+/-- what a variable build with overrides `ov` leaves in the default master's Info `d`: read the master's object back
+after `InfoCompiler.__init__` ran (the `touch` of `history` on the Info component of a source) -/
+def touchInfo (lib : UfoLib) (ov : InfoD) (d : InfoD) : InfoD := (infoInit lib ⟨[d]⟩ 0 ov).1.get 0
 
 /-! ### the compiler object as a state machine (baseCompiler.py 72-82, 132-139) -/
 
